@@ -2,6 +2,7 @@ import Driver.Sparse
 import Driver.Markers
 import Driver.Exit
 import Driver.Refs
+import Driver.AssembleE
 /-! `xfemm_model` — line-protocol driver for the executable models.
     usage: xfemm_model <engine> [float|rat]   (requests on stdin, one reply per line on stdout) -/
 def main (args : List String) : IO UInt32 := do
@@ -9,6 +10,7 @@ def main (args : List String) : IO UInt32 := do
   let stdout ← IO.getStdout
   match args with
   | "sparse" :: rest => Driver.Sparse.run (rest.headD "float") stdin stdout; return 0
+  | "assemble-e" :: _ => Driver.AssembleE.run stdin stdout; return 0
   | "refs" :: _ => Driver.Refs.run stdin stdout; return 0
   | "exit" :: _ => Driver.Exit.run stdin stdout; return 0
   | "markers" :: _ => Driver.Markers.run stdin stdout; return 0
